@@ -44,8 +44,9 @@ pub struct Config {
     pub keep_derives: Vec<String>,
     /// structural anchors requested: list of (kind, callee/ordinal)
     pub anchors: Vec<(String, String, u64)>,
-    /// expand `?` on these... (unused)
     pub rename_fn: Option<String>,
+    /// R12: constants extracted as accessor functions; a path `NAME` becomes the call `NAME()`
+    pub const_calls: Vec<String>,
 }
 
 fn strs(v: &Value) -> Vec<String> {
@@ -80,6 +81,7 @@ impl Config {
                 }
             }
             c.add_derives.extend(strs(&src["add_derives"]));
+            c.const_calls.extend(strs(&src["const_calls"]));
             c.keep_derives.extend(strs(&src["keep_derives"]));
         }
         // longest prefix first
@@ -508,6 +510,35 @@ impl<'a> VisitMut for MethodRenamePass<'a> {
         }
         visit_mut::visit_expr_method_call_mut(self, mc);
     }
+}
+
+// ------------------------------------------------------------------------------------------
+// R12 : constants as accessor calls
+// ------------------------------------------------------------------------------------------
+
+struct ConstCallPass<'a> {
+    cfg: &'a Config,
+    counts: &'a mut Counts,
+}
+
+impl<'a> VisitMut for ConstCallPass<'a> {
+    fn visit_expr_mut(&mut self, e: &mut syn::Expr) {
+        if let syn::Expr::Path(p) = e {
+            if p.qself.is_none() {
+                if let Some(last) = p.path.segments.last() {
+                    let n = last.ident.to_string();
+                    if self.cfg.const_calls.iter().any(|c| *c == n) {
+                        let id = last.ident.clone();
+                        *e = syn::parse_quote!(#id());
+                        bump(self.counts, "R12.const_call");
+                        return;
+                    }
+                }
+            }
+        }
+        visit_mut::visit_expr_mut(self, e);
+    }
+    fn visit_macro_mut(&mut self, _m: &mut syn::Macro) {}
 }
 
 // ------------------------------------------------------------------------------------------
@@ -993,6 +1024,11 @@ pub fn apply_to_fn(
             return Err(format!("lost anchor: no shadowing `let {}` to rename", from));
         }
         bump(counts, "R15.rename_shadow");
+    }
+    // R12
+    if !cfg.const_calls.is_empty() {
+        let mut p = ConstCallPass { cfg, counts };
+        p.visit_block_mut(&mut f.block);
     }
     // R8 generics
     drop_generics_sig(&mut f.sig.generics, &cfg.drop_generics, counts);
